@@ -93,11 +93,44 @@ pub const KEYS: &[(&str, &str, &str)] = &[
     // a namespace whose name is not an identifier: the unit id carries the name, not the identifier
     ("side-bar", "side-bar.title", "side.title[{L}]"),
     ("side-bar", "side-bar.entry", "side.entry[{L}] 4"),
+    // keys some locales leave out: the text (and the unit read) is the one of the locale the key falls back to
+    ("partial", "partial.here", "here[{L}]"),
+    ("partial", "partial.only_default", "only.default[{U}]"),
+    ("partial", "partial.from_parent", "from.parent[{U}]"),
 ];
+
+/// The locale whose table holds the text of `key` for a context in `locale`: the locale itself, or for a key the locale
+/// leaves out the locale it inherits from (`fr-CA` -> `fr`, configured), else the default locale.
+fn unit_locale(key: usize, locale: &str) -> &'static str {
+    let own = LOCS.iter().find(|l| **l == locale).copied().unwrap_or("en");
+    match KEYS[key % KEYS.len()].1 {
+        "partial.only_default" => "en",
+        "partial.from_parent" => match locale {
+            "fr" | "fr-CA" => "fr",
+            _ => "en",
+        },
+        _ => own,
+    }
+}
+
+/// Records the unit a synchronous read of `key` in `locale` must leave in the script. When the key falls back to another
+/// locale, the unit of `locale` itself is allowed but not demanded.
+fn read_unit(must: &mut BTreeSet<(String, String)>, may: &mut BTreeSet<(String, String)>, key: usize, locale: &str) {
+    let u = unit_of(key, locale);
+    if u.0 != locale {
+        may.insert((locale.to_string(), u.1.clone()));
+    }
+    must.insert(u);
+}
+
+/// The translation unit a read of `key` in `locale` uses.
+fn unit_of(key: usize, locale: &str) -> (String, String) {
+    (unit_locale(key, locale).to_string(), KEYS[key % KEYS.len()].0.to_string())
+}
 
 fn expected_text(key: usize, locale: &str) -> String {
     let bare = if locale == "en" || locale == "de" { String::new() } else { format!(" [{locale}]") };
-    KEYS[key % KEYS.len()].2.replace("{L}", locale).replace("{BARE}", &bare)
+    KEYS[key % KEYS.len()].2.replace("{L}", locale).replace("{U}", unit_locale(key, locale)).replace("{BARE}", &bare)
 }
 
 fn text_node(i18n: leptos_i18n::I18nContext<Locale>, key: usize, n: usize) -> AnyView {
@@ -124,10 +157,32 @@ fn text_node(i18n: leptos_i18n::I18nContext<Locale>, key: usize, n: usize) -> An
         12 => view! { <p data-n=id>{t!(i18n, nasty.nul)}</p> }.into_any(),
         13 => view! { <p data-n=id>{t!(i18n, bare.only, x = "7")}</p> }.into_any(),
         14 => view! { <p data-n=id>{t!(i18n, side_bar.title)}</p> }.into_any(),
-        _ => {
+        15 => {
             let scoped = scope_i18n!(i18n, side_bar);
             view! { <p data-n=id>{t!(scoped, entry, n = 4)}</p> }.into_any()
         }
+        16 => view! { <p data-n=id>{t!(i18n, partial.here)}</p> }.into_any(),
+        17 => view! { <p data-n=id>{t!(i18n, partial.only_default)}</p> }.into_any(),
+        _ => view! { <p data-n=id>{t!(i18n, partial.from_parent)}</p> }.into_any(),
+    }
+}
+
+/// keys a `Td` node can read (indices into KEYS)
+pub const TD_KEYS: &[usize] = &[0, 3, 5, 14, 16, 17, 18];
+
+/// A text read with an explicit locale (`td!`): a language switcher, a "read this page in ..." link. The locale is
+/// whatever the caller names, not the locale of the context around it.
+fn td_node(l: usize, key: usize, n: usize) -> AnyView {
+    let id = n.to_string();
+    let l = loc(l);
+    match key % KEYS.len() {
+        0 => view! { <p data-n=id>{td!(l, common.hello)}</p> }.into_any(),
+        3 => view! { <p data-n=id>{td!(l, home.title)}</p> }.into_any(),
+        5 => view! { <p data-n=id>{td!(l, nasty.quote)}</p> }.into_any(),
+        14 => view! { <p data-n=id>{td!(l, side_bar.title)}</p> }.into_any(),
+        16 => view! { <p data-n=id>{td!(l, partial.here)}</p> }.into_any(),
+        17 => view! { <p data-n=id>{td!(l, partial.only_default)}</p> }.into_any(),
+        _ => view! { <p data-n=id>{td!(l, partial.from_parent)}</p> }.into_any(),
     }
 }
 
@@ -137,8 +192,11 @@ pub enum Node {
     Set { l: usize },
     /// a sub-context provider; `inner`: another sub-context provider nested inside it (init, keys)
     /// `lazy`: one more child that looks its context up only when it is rendered (`{move || ..}`), not when it is built
-    Sub { init: Option<usize>, keys: Vec<usize>, inner: Option<(Option<usize>, Vec<usize>)>, lazy: bool },
+    /// `outer_key`: one more child inside the provider that reads through the *page's* context (a handle taken outside)
+    Sub { init: Option<usize>, keys: Vec<usize>, inner: Option<(Option<usize>, Vec<usize>)>, lazy: bool, outer_key: Option<usize> },
     Suspense { gate: usize, key: usize },
+    /// `td!` with an explicit locale, whatever the context's locale is
+    Td { l: usize, key: usize },
 }
 
 impl Node {
@@ -146,8 +204,9 @@ impl Node {
         match self {
             Node::Text { key } => json!({"t": "text", "key": KEYS[*key % KEYS.len()].1}),
             Node::Set { l } => json!({"t": "set", "l": LOCS[*l % LOCS.len()]}),
-            Node::Sub { init, keys, inner, lazy } => json!({
-                "lazy": lazy,
+            Node::Td { l, key } => json!({"t": "td", "l": LOCS[*l % LOCS.len()], "key": KEYS[*key % KEYS.len()].1}),
+            Node::Sub { init, keys, inner, lazy, outer_key } => json!({
+                "lazy": lazy, "outer_key": outer_key.map(|k| KEYS[k % KEYS.len()].1),
                 "t": "sub", "init": init.map(|l| LOCS[l % LOCS.len()]), "keys": keys.iter().map(|k| KEYS[*k % KEYS.len()].1).collect::<Vec<_>>(),
                 "inner": inner.as_ref().map(|(i, ks)| json!({"init": i.map(|l| LOCS[l % LOCS.len()]), "keys": ks.iter().map(|k| KEYS[*k % KEYS.len()].1).collect::<Vec<_>>()})),
             }),
@@ -165,7 +224,9 @@ impl Node {
                 keys: v["keys"].as_array().map(|a| a.iter().map(key).collect()).unwrap_or_default(),
                 inner: v["inner"].as_object().map(|o| (l(&o["init"]), o["keys"].as_array().map(|a| a.iter().map(key).collect()).unwrap_or_default())),
                 lazy: v["lazy"].as_bool().unwrap_or(false),
+                outer_key: if v["outer_key"].is_string() { Some(key(&v["outer_key"])) } else { None },
             },
+            "td" => Node::Td { l: l(&v["l"]).unwrap_or(0), key: key(&v["key"]) },
             "suspense" => Node::Suspense { gate: v["gate"].as_u64().unwrap_or(0) as usize, key: key(&v["key"]) },
             _ => return None,
         })
@@ -296,7 +357,9 @@ pub fn generate(rng: &mut Rng) -> Plan {
                     keys: (0..1 + rng.below(2)).map(|_| rng.below(KEYS.len())).collect(),
                     inner: if rng.chance(1, 3) { Some((if rng.chance(1, 3) { Some(rng.below(LOCS.len())) } else { None }, vec![rng.below(KEYS.len())])) } else { None },
                     lazy: rng.chance(1, 3),
+                    outer_key: if rng.chance(1, 4) { Some(rng.below(KEYS.len())) } else { None },
                 },
+                5 if rng.chance(1, 2) => Node::Td { l: rng.below(LOCS.len()), key: *rng.pick(TD_KEYS) },
                 3 | 4 if n_gates > 0 => Node::Suspense { gate: rng.below(n_gates), key: rng.below(KEYS.len()) },
                 _ => Node::Text { key: rng.below(KEYS.len()) },
             };
@@ -415,8 +478,10 @@ fn page_view(r: Request, gates: Vec<Gate>, set_cookies: Arc<Mutex<ResponseState>
                     // what the router's view wrapper does while rendering a localized route
                     i18n.set_locale(loc(*l));
                 }
-                Node::Sub { init, keys, inner, lazy } => {
+                Node::Td { l, key } => out.push(td_node(*l, *key, n)),
+                Node::Sub { init, keys, inner, lazy, outer_key } => {
                     let lazy = *lazy;
+                    let outer_key = *outer_key;
                     let keys = keys.clone();
                     let inner = inner.clone();
                     let base = (n + 1) * 1000;
@@ -424,6 +489,10 @@ fn page_view(r: Request, gates: Vec<Gate>, set_cookies: Arc<Mutex<ResponseState>
                     let children = move || {
                         let sub = use_i18n();
                         let mut v: Vec<AnyView> = keys.iter().enumerate().map(|(j, k)| text_node(sub, *k, base + j + 1)).collect();
+                        if let Some(k) = outer_key {
+                            // the page's own context, used below a provider of another one
+                            v.push(text_node(i18n, k, base + 800));
+                        }
                         if lazy {
                             let k = keys[0];
                             v.push(
@@ -830,37 +899,45 @@ fn expect(r: &Request) -> Expect {
         match node {
             Node::Set { l } => current = *l % LOCS.len(),
             Node::Text { key } => {
-                let k = KEYS[*key % KEYS.len()];
-                must.insert((LOCS[main_locale].to_string(), k.0.to_string()));
+                read_unit(&mut must, &mut may, *key, LOCS[main_locale]);
                 texts.push((n, expected_text(*key, LOCS[main_locale]), false));
             }
-            Node::Sub { init, keys, inner, lazy } => {
+            Node::Td { l, key } => {
+                // the named locale's unit, whatever locale the contexts around the call hold
+                let l = *l % LOCS.len();
+                read_unit(&mut must, &mut may, *key, LOCS[l]);
+                texts.push((n, expected_text(*key, LOCS[l]), false));
+            }
+            Node::Sub { init, keys, inner, lazy, outer_key } => {
                 if *lazy {
                     // looked up at render time: still the sub-context of the provider it is written in
                     let l = init.map(|l| l % LOCS.len()).unwrap_or(current);
-                    must.insert((LOCS[l].to_string(), KEYS[keys[0] % KEYS.len()].0.to_string()));
+                    read_unit(&mut must, &mut may, keys[0], LOCS[l]);
                     texts.push(((n + 1) * 1000 + 900, expected_text(keys[0], LOCS[l]), false));
+                }
+                if let Some(k) = outer_key {
+                    // read through the page's context: its locale, not the sub-context's
+                    read_unit(&mut must, &mut may, *k, LOCS[main_locale]);
+                    texts.push(((n + 1) * 1000 + 800, expected_text(*k, LOCS[main_locale]), false));
                 }
                 // created during construction: explicit initial locale, else the parent's locale at that moment
                 let l = init.map(|l| l % LOCS.len()).unwrap_or(current);
                 for (j, key) in keys.iter().enumerate() {
-                    let k = KEYS[*key % KEYS.len()];
-                    must.insert((LOCS[l].to_string(), k.0.to_string()));
+                    read_unit(&mut must, &mut may, *key, LOCS[l]);
                     texts.push(((n + 1) * 1000 + j + 1, expected_text(*key, LOCS[l]), false));
                 }
                 if let Some((iinit, ikeys)) = inner {
                     // the nested sub-context's parent is the enclosing sub-context, not the page's main context
                     let il = iinit.map(|l| l % LOCS.len()).unwrap_or(l);
                     for (j, key) in ikeys.iter().enumerate() {
-                        let k = KEYS[*key % KEYS.len()];
-                        must.insert((LOCS[il].to_string(), k.0.to_string()));
+                        read_unit(&mut must, &mut may, *key, LOCS[il]);
                         texts.push(((n + 1) * 1000 + 500 + j + 1, expected_text(*key, LOCS[il]), false));
                     }
                 }
             }
             Node::Suspense { key, .. } => {
-                let k = KEYS[*key % KEYS.len()];
-                may.insert((LOCS[main_locale].to_string(), k.0.to_string()));
+                may.insert(unit_of(*key, LOCS[main_locale]));
+                may.insert((LOCS[main_locale].to_string(), KEYS[*key % KEYS.len()].0.to_string()));
                 texts.push((n, expected_text(*key, LOCS[main_locale]), true));
             }
         }
